@@ -1,6 +1,7 @@
 import ProcSim.Gen.AccPlan
 import ProcSim.Props.C19gen
 import ProcSim.Model.Sim
+import ProcSim.Lemmas.Hazards
 /-!
 # Translator tie for the register access plan (`_build_acc_plan` and its helpers in `src/sim_services/__init__.py`)
 
@@ -176,6 +177,34 @@ theorem gen_build_acc_plan (prog : List (Instr N)) :
   have := mapM_create (buildPlan prog)
   simp only [bind, Except.bind, pure, Except.pure] at this
   rw [this]
+
+theorem lookup_encPlan (qs : Queues N) (r : N) :
+    PyDict.lookup (List.map (fun kv => (kv.1, encQ kv.2)) qs) r = (AMap.get? qs r).map encQ := by
+  induction qs with
+  | nil => rfl
+  | cons kv t ih =>
+    obtain ⟨k, q⟩ := kv
+    by_cases h : k = r <;> simp [PyDict.lookup, AMap.get?, h, ih]
+
+/-- **The plan built by the translated code, read at the request level** (the mechanism C01 and C02 rest on): the call
+never raises, and whatever queue the returned dict holds for a register is the encoding of a well-formed model queue whose
+pending requests are exactly that register's requests in program order (reads of an instruction before its write). -/
+theorem C01_gen_plan_requests (prog : List (Instr N)) :
+    ∃ d, _build_acc_plan (indexed 0 prog) = .ok d ∧
+      ∀ r pq, PyDict.lookup d.items r = some pq →
+        ∃ q, pq = encQ q ∧ Spec.abs q = Hazards.reqsOf prog r ∧ Spec.WFq q := by
+  refine ⟨encPlan (buildPlan prog), gen_build_acc_plan prog, ?_⟩
+  intro r pq h
+  have h' : (AMap.get? (buildPlan prog) r).map encQ = some pq := by
+    rw [← lookup_encPlan]; exact h
+  cases hq : AMap.get? (buildPlan prog) r with
+  | none => rw [hq] at h'; cases h'
+  | some q =>
+    rw [hq] at h'
+    have hget : (buildPlan prog).get r = q := by simp [Queues.get, hq]
+    refine ⟨q, by simpa using h'.symm, ?_, ?_⟩
+    · rw [← hget]; exact Hazards.abs_buildPlan prog r
+    · rw [← hget]; exact Hazards.wf_buildPlan prog r
 
 /-! non-vacuity: `ADD R1 <- R1, R2 ; SUB R2 <- R1` over registers numbered 1, 2 -/
 example : (_build_acc_plan (indexed 0 [⟨[1, 2], 1, 0⟩, ⟨[1], 2, 0⟩] : List (Nat × HwInstruction Nat))).toOption.map
